@@ -2,7 +2,7 @@
 from ..common import CheckResult, BASE_ASSUMPTIONS
 from . import lexcommon
 
-KINDS = ("pos",)
+KINDS = ("pos", "printed")
 
 
 def plan(tier):
